@@ -46,7 +46,33 @@ def setup(common=None):
                 reg.modify(e["sym"], float(e["value"]))
         return reg, {"registry": reg}
 
+    twin_edits = (common or {}).get("twin_edits")
+
+    def apply(reg, elist, modify_only=False):
+        for e in elist:
+            if e["op"] == "add" and not modify_only:
+                reg.add(e["sym"], float(e["value"]), getattr(D, e["dim"]), prefixable=bool(e["prefixable"]))
+            else:
+                reg.modify(e["sym"], float(e["value"]))
+
+    def build_cross(cfg, bind, foreign):
+        """registries made afresh for ONE case.  foreign: the spellings of the unit objects that are read in the
+        twin table -> (the quantity's registry, {spelling: Unit object})"""
+        reg = UnitRegistry(unit_system=cfg) if cfg else UnitRegistry()
+        if bind == "stale":
+            # the quantity's own registry, while it still holds the twin values; re-calibrated afterwards
+            apply(reg, twin_edits)
+            units = {s: Unit(s, registry=reg) for s in foreign}
+            apply(reg, edits, modify_only=True)
+        else:
+            reg2 = UnitRegistry()
+            apply(reg2, twin_edits)
+            units = {s: Unit(s, registry=reg2) for s in foreign}
+            apply(reg, edits)
+        return reg, units
+
     _U["build"] = build
+    _U["build_cross"] = build_cross
     _U["regs"] = {}
     use("")
 
@@ -59,8 +85,20 @@ def use(cfg):
     _U.update(_U["regs"][cfg])
 
 
+def use_fresh(case, foreign):
+    """registries made for this case only (instance `cross`): its history starts from nothing"""
+    reg, units = _U["build_cross"](case.get("cfg", ""), case["bind"], foreign)
+    _U.update(reg=reg, regkw={"registry": reg}, ucache={}, owncache={}, foreign=units)
+
+
+def is_foreign(case, which):
+    return _U["pool"][case[which.lower()] - 1].get("reg", 1) == 2
+
+
 def spec_str(case, which):
     s = _U["pool"][case[which.lower()] - 1]  # own copy of the spec: TLC mangles non-ASCII on output
+    if s.get("reg", 1) == 2:  # a twin unit is spelled like the unit of the quantity's registry
+        s = dict(s, a=s["a"][:-2] if s["a"].endswith("@2") else s["a"], b=s["b"][:-2] if s["b"].endswith("@2") else s["b"])
     coef = s.get("coef", 1)
     if s["b"] == "" and s["ea"] == 1 and coef == 1:
         return s["a"]
@@ -128,9 +166,10 @@ def make(case, ustr):
         vals = [int(x) for x in xs]
     else:
         vals = [float(x) for x in xs]
+    kw = {} if isinstance(ustr, _U["Unit"]) else _U["regkw"]  # a Unit object brings its table along
     if case["sh"] == "scalar":
-        return _U["uq"](dt.type(vals[0]), ustr, **_U["regkw"])
-    return _U["ua"](np.array(vals, dtype=dt), ustr, **_U["regkw"])
+        return _U["uq"](dt.type(vals[0]), ustr, **kw)
+    return _U["ua"](np.array(vals, dtype=dt), ustr, **kw)
 
 
 def run(f):
@@ -165,14 +204,28 @@ def inplace(q, *targets):
 
 
 def conv_routes(case, sa, sb, sc):
-    ua_, ub_, uc_ = unit_of(sa), unit_of(sb), unit_of(sc)
+    # a twin unit object (instance `cross`) cannot be named by a string: a string is read in the quantity's registry
+    fb, fc = is_foreign(case, "B"), is_foreign(case, "C")
+    ua_ = unit_of(sa)
+    ub_ = _U["foreign"][sb] if fb else unit_of(sb)
+    uc_ = _U["foreign"][sc] if fc else unit_of(sc)
     mk = lambda: make(case, sa)  # noqa: E731
     R = []
 
     def add(fam, rt, g, f):
+        if rt.startswith("to_name") and ((fb and fam in ("ab", "aba")) or (fc and fam == "ac")):
+            return
         r = run(f)
         r.update(fam=fam, rt=rt, g=g)
         R.append(r)
+
+    # the history of the case: requests x -> y made before the observed routes, in the same registries
+    by = {"a": ua_, "b": ub_, "c": uc_}
+    for leg in case.get("warm", []):
+        try:
+            make(case, by[leg[0]]).to(by[leg[1]])
+        except Exception:  # noqa: BLE001 - the same request is observed below
+            pass
 
     for fam, g, t, tn in (("id", "A", ua_, sa), ("ab", "B", ub_, sb), ("ac", "C", uc_, sc)):
         add(fam, "to", g, lambda t=t: mk().to(t))
@@ -381,8 +434,11 @@ def classify(case, R, units):
 
 
 def observe(case):
-    use(case.get("cfg", ""))
     sa = spec_str(case, "A")
+    if case.get("bind"):
+        use_fresh(case, sorted({spec_str(case, w) for w in "BC" if is_foreign(case, w)}))
+    else:
+        use(case.get("cfg", ""))
     if case["kind"] == "conv":
         sb, sc = spec_str(case, "B"), spec_str(case, "C")
         R, units = conv_routes(case, sa, sb, sc)
@@ -391,6 +447,7 @@ def observe(case):
         R, units = base_routes(case, sa)
     res, tol = classify(case, R, units)
     obs = {k: case[k] for k in ("kind", "a", "b", "c", "k", "dt", "sh", "xs", "exact", "sys", "sysi", "cfg", "cfgi", "dfam")}
+    obs["bind"], obs["warm"] = case.get("bind", ""), list(case.get("warm", []))
     obs["res"] = res
     obs["ustr"] = {g: (ascii_unit(u) if u is not None else "") for g, u in units.items()}
     obs["names"] = {"A": sa.encode("ascii", "backslashreplace").decode(), "B": sb.encode("ascii", "backslashreplace").decode(), "C": sc.encode("ascii", "backslashreplace").decode()}
